@@ -146,6 +146,8 @@ def shapes_1key():
         ('nogroup', mk([], None)),
         ('expr-selected', mk([(up, 'u')], [F('upper', col('k'))])),
         ('expr-alias', mk([(up, 'u')], [col('u')])),
+        # the output name of a key expression coincides with a table column: GROUP BY k means the target named k
+        ('expr-alias-shadows-column', mk([(up, 'k')], [col('k')])),
         ('expr-hidden', mk([], [F('upper', col('k'))])),
         ('key-last', mk([], [k], post=[(k, None)])),
         ('repeated', mk([(k, None)], [k, col('k')])),
